@@ -61,6 +61,9 @@ class Tz(datetime.tzinfo):
         return None
 
 
+POOL = ["p" * 23, "q" * 33, "long text number three, forty-one chars ....", "w" * 100, "z" * 256, "k" * 10, "m" * 5, "account-key-of-23-chars"]
+
+
 def hostile(ctx):
     def fn(rng, desc, clsname, attr):
         from ofxtools import Types as T
@@ -104,8 +107,14 @@ def hostile(ctx):
                                          rng.choice([0, 999999, 999500, 499]), tzinfo=tz)
             except Exception:
                 return NotImplemented
+        if isinstance(desc, T.OneOf):
+            tok = rng.choice([t for t in desc.valid if isinstance(t, str)] or ["X"])
+            return rng.choice([tok.lower(), tok.title(), tok.swapcase(), tok + " ", " " + tok])
         if isinstance(desc, T.String):
             r = rng.random()
+            if r < 0.25:
+                # texts from a small shared pool, longer than many limits: a wide field accepts them, a narrow one must refuse
+                return POOL[rng.randrange(len(POOL))]
             if r < 0.5:
                 return values.gen_str(rng, desc.length)
             cap = desc.length or 30
@@ -191,7 +200,7 @@ def run_shard(ctx):
     online.install_to_etree_monitor()
     online.install_init_monitor()
     classes = list(ref_decl.all_classes().items())
-    per = 8 if ctx.tier == "quick" else 90
+    per = 20 if ctx.tier == "quick" else 300
     for ci, (name, cls) in enumerate(classes):
         if ci % ctx.nshards != ctx.shard:
             continue
